@@ -51,7 +51,7 @@ inductive Action (H : Type) where
   | disconnect (p : Nat)
   | ban (p : Nat)
   | panic                            -- nil dereference / index out of range in the handler goroutine
-deriving Repr
+deriving Repr, DecidableEq
 
 inductive Event (H : Type) where
   | newPeer (p : Nat) (candidate : Bool) (lastBlock : Int)
